@@ -307,7 +307,7 @@ PROPS = {
         'assumptions': ['Mode::with_extensions only', 'two fixed option tables'],
     },
     'C02': {
-        'v_units': ['cmdsearch', 'looplevel', 'whileloop'],
+        'v_units': ['cmdsearch', 'looplevel', 'whileloop', 'condframe'],
         'k_units': ['loopcount'],
         'level': 'other',
         'explanation': (
@@ -329,7 +329,12 @@ PROPS = {
             'the first result that is neither normal nor a continue of this very loop (which starts the next round), or on a false condition, '
             'and hands on exactly that result with one break / continue level taken off (Break{0} ends the loop normally, Break{n} becomes '
             'Break{n-1}, Continue{n} becomes Continue{n-1}, return / exit / interrupt pass through). '
-            'NOT decided: everything else C02 says - which commands run in which order with which $?, and-or lists, pipelines, negation, '
+            '(4) Unit condframe (Verus, shared with C10): one element of an and-or list after the first runs iff (`&&` and the status so far '
+            'is zero) or (`||` and it is not), otherwise nothing runs and the status stays - left to right, equal precedence, because each '
+            'element only looks at the status left by what ran before it; `!` inverts only the status (0 <-> 1 / non-zero -> 0) and only when '
+            'the commands ended normally, a divert passes through un-inverted; the condition of if / while / until holds iff its last command '
+            'succeeded. '
+            'NOT decided: everything else C02 says - which commands run in which order with which $?, multi-command pipelines, '
             'if/for/case, functions and return, the decoding of Break/Continue diverts by for loops, the exit status of loops, the $PATH walk '
             'itself (search_path: iterator adapters over strings, assumed), Env::builtin (availability under posixly-correct / portable).'),
         'trusted_base': ['Verus 0.2026.09.13 + Z3', 'Kani 0.68.0 + CBMC 6.11', '/verif/tools/vextract.py, /verif/tools/kunit.py'],
@@ -471,7 +476,7 @@ PROPS = {
         ],
     },
     'C10': {
-        'v_units': ['errexit'],
+        'v_units': ['errexit', 'condframe'],
         'k_units': ['errexit'],
         'level': 'other',
         'explanation': (
@@ -483,8 +488,13 @@ PROPS = {
             'Env::apply_result / Divert::exit_status move the exit status a divert carries into $? and nothing else. Kani runs the same '
             'two functions on real Env values (built field by field) for every stack of <= 3 frames over {Loop, Subshell, Condition, '
             'DotScript, InitFile} with the option and the status symbolic: a structure-independent sibling that still judges the function '
-            'when it is rewritten with iterator adapters the Verus unit cannot take. NOT decided: where the interpreter pushes '
-            'Frame::Condition (and-or lists, negation, loop conditions: async code of yash-semantics), which commands consult '
+            'when it is rewritten with iterator adapters the Verus unit cannot take. Unit condframe (Verus) decides WHERE the exempt contexts '
+            'are entered, on the real code of the three places that push Frame::Condition (async stripped; running commands is an opaque call '
+            'whose stack is recorded in a ghost log): evaluate_condition (compound_command.rs) runs the condition of if / while / until with a '
+            'Condition frame on top of the caller\'s stack; a negated pipeline (pipeline.rs) runs its commands with one, a plain pipeline '
+            'without; AndOrList::execute (and_or.rs) runs every pipeline of the list with a Condition frame directly above the caller\'s stack '
+            'EXCEPT the last one, which runs with the caller\'s own stack - exactly "every pipeline of an and-or list but the last"; and in '
+            'each case the stack is as it was afterwards. NOT decided: which commands consult '
             'apply_errexit, and the consequences-of-shell-errors table (special built-in errors, redirection errors, assignment errors, '
             'expansion errors): all of that is async interpreter code outside both tools.'),
         'trusted_base': ['Verus 0.2026.09.13 + Z3', 'Kani 0.68.0 + CBMC 6.11', '/verif/tools/vextract.py, /verif/tools/kunit.py'],
@@ -492,6 +502,7 @@ PROPS = {
             'struct Env is reduced to the fields the functions read (exit_status, options, stack) in the Verus unit; OptionSet::get is assumed to answer On iff the option is in the set',
             'assumed contract of <[T]>::contains (membership under the specified equality); derived PartialEq of Frame and State is structural',
             'Kani: RandomState::new is stubbed with fixed keys (std asks the OS for random hash keys; no hash table is consulted by the functions under contract)',
+            'unit condframe: RAII of the frame guard is ASSUMED as a whole in the contract of Env::push_frame (external_body: while the guard lives the frame is on top; when it goes away one frame has been popped and the rest is as the guard left it) - Verus does not model destructors; what is verified is the destructor body (pops one frame) and the identical two-line body of Stack::push; running commands (List::execute, execute_commands_in_pipeline) is an opaque call that records (what, stack, status before/after, result) in a ghost log; Env reduced to exit_status / options / stack / log; `slice.iter().peekable()` is a hand-written index model; `&mut guard` (DerefMut) is checked as `guard.env`; an explicit drop(guard) is checked as the end of the guard\'s life; `?` on ControlFlow through assumed contracts; await points dropped; the option test of noexec is an assumed two-option model',
         ],
     },
 }
